@@ -96,7 +96,7 @@ inline void swarmEnv(Plan& p, Rng& r, bool readFaults, bool writeFaults, bool bi
 
 inline std::string randName(Rng& r, size_t minLen, size_t maxLen, bool punct) {
 	static const std::string alnum = "abcdefghijklmnopqrstuvwxyzABCDEFGHIJKLMNOPQRSTUVWXYZ0123456789";
-	static const std::string extra = "_-.~!@#$^&()+={}[],;' `|";
+	static const std::string extra = "_-.~!@#$^&()+={}[],;' `|\\";
 	size_t n = static_cast<size_t>(r.range(minLen, maxLen));
 	std::string s;
 	for (size_t i = 0; i < n; ++i) {
@@ -117,6 +117,18 @@ inline std::string bit5Sibling(const std::string& base, Rng& r) {
 	size_t n = 1 + static_cast<size_t>(r.below(at.size()));
 	for (size_t k = 0; k < n; ++k) { size_t i = at[r.below(at.size())]; if (s[i] == '|') continue; s[i] = static_cast<char>(base[i] ^ 0x20); }
 	return s == base ? "" : s;
+}
+
+// A name that a sloppy comparison may take for `base` although it is a different name: same stem with another (or no) extension,
+// same text after a backslash (an ordinary character on this platform), a trailing dot, or a bit-5 sibling.
+inline std::string tieProneSibling(const std::string& base, Rng& r) {
+	switch (r.below(5)) {
+	case 0: { size_t dot = base.rfind('.'); std::string stem = dot == std::string::npos || dot == 0 ? base : base.substr(0, dot); static const char* E[] = {".txt", ".bmp", ".map", "", ".t", ".TXT2"}; return stem + E[r.below(6)]; }
+	case 1: return std::string(1, static_cast<char>('a' + r.below(26))) + std::string(1 + r.below(2), 'q') + "\\" + base;
+	case 2: { size_t bs = base.rfind('\\'); return std::string(1, static_cast<char>('A' + r.below(26))) + "\\" + (bs == std::string::npos ? base : base.substr(bs + 1)); }
+	case 3: return base + ".";
+	default: { std::string sib = bit5Sibling(base, r); return sib.empty() ? base + "~" : sib; }
+	}
 }
 
 } // namespace sim
